@@ -142,10 +142,15 @@ def explore(seq, full):
             case = {"kind": "hist", "seq": seq, "history": [list(h) if False else h for h in hist] + [op]}
             exp = [] if op[0] == "clear" else model_set(seq, list(st), op[1])
             try:
+                bystander = SP(seq)
                 o = build(seq, hist)
                 apply(o, op)
                 got = o.get_phosphosites()
                 calls += len(hist) + 2
+                if bystander.get_phosphosites() != [] or SP(seq).get_phosphosites() != []:
+                    out.append({"key": "phosphosites-leak-between-objects",
+                                "what": "%s after %r + %s(%r): another object of the same sequence now lists sites %r"
+                                % (seq, hist, op[0], op[1], bystander.get_phosphosites()), "case": case})
             except Exception as e:  # noqa
                 out.append({"key": "set-raises" if op[0] == "set" else "clear-raises",
                             "what": "%s after %r: %s(%r) raised %r" % (seq, hist, op[0], op[1], e), "case": case})
